@@ -1,5 +1,6 @@
 (* Invariants of the tracer on the scalar fragment, generic in what is tracked about each bound value:
-   [P a t] relates an abstract datum [a] (a taint bit, a static type, ...) to the type [t] of the scalar
+   [P a t v] relates an abstract datum [a] (a taint bit, a static type, an exact value, ...) to the type [t] and
+   the literal value [v] of the scalar
    wrapper the tracer binds.  Shared by the program-level theorems of C02 and C03. *)
 From Coq Require Import ZArith List String Bool Lia.
 From NadaV.PyMini Require Import PyMini.
@@ -34,11 +35,14 @@ Lemma pick_this x y z : pick roles3 "this" [x; y; z] = need_id x.  Proof. reflex
 Lemma pick_arg0 x y z : pick roles3 "arg_0" [x; y; z] = need_id y.  Proof. reflexivity. Qed.
 Lemma pick_arg1 x y z : pick roles3 "arg_1" [x; y; z] = need_id z.  Proof. reflexivity. Qed.
 
+(* the value a literal wrapper records: booleans as 0 / 1 *)
+Definition lit_norm (b : base) (v : Z) : Z := match b with BBool => if Z.eqb v 0 then 0 else 1 | _ => v end.
+
 Section Inv.
 Variable A : Type.
-Variable P : A -> sty -> Prop.
+Variable P : A -> sty -> option Z -> Prop.
 Definition val_ok (s : tstate) (w : wrap) (a : A) : Prop :=
-  exists t id v, w = WScalar t id v /\ P a t /\ idlink s id t.
+  exists t id v, w = WScalar t id v /\ P a t v /\ idlink s id t.
 Definition env_ok (s : tstate) (ρ : env) (τ : list (string * A)) : Prop :=
   Forall2 (fun x a => fst x = fst a /\ exists w, snd x = BWrap w /\ val_ok s w (snd a)) ρ τ.
 
@@ -73,7 +77,7 @@ Definition step_ok (s s1 : tstate) (w : wrap) (a : A) : Prop :=
 
 (* a record pushed under a fresh id *)
 Lemma pushed_step s id rec c1 l1 t v b :
-  fresh_store s -> counter s < id -> id <= c1 -> r_ty rec = TyName (mir_name t) -> P b t ->
+  fresh_store s -> counter s < id -> id <= c1 -> r_ty rec = TyName (mir_name t) -> P b t v ->
   step_ok s {| counter := c1; store := (id, rec) :: store s; lits := l1 |} (WScalar t (Some id) v) b.
 Proof.
   intros Hf H1 H2 Ht Hb. split; [|split].
@@ -85,7 +89,7 @@ Proof.
 Qed.
 
 Lemma new_literal_ok b0 v s w s1 a :
-  new_literal b0 v s = Ok (w, s1) -> P a (MConst, b0) -> fresh_store s -> step_ok s s1 w a.
+  new_literal b0 v s = Ok (w, s1) -> P a (MConst, b0) (Some (lit_norm b0 v)) -> fresh_store s -> step_ok s s1 w a.
 Proof.
   intros H Hp Hf. unfold new_literal, mbind, alloc, lit_index, put, ret in H. cbn [counter store lits] in H.
   match type of H with context [index_of ?k ?l 0] => destruct (index_of k l 0) end;
@@ -94,7 +98,7 @@ Qed.
 
 Lemma emit_ok t n s w s1 b :
   (mdo id <- alloc; emit_scalar t id (n id)) s = Ok (w, s1) ->
-  P b t -> fresh_store s -> step_ok s s1 w b.
+  P b t None -> fresh_store s -> step_ok s s1 w b.
 Proof.
   intros H Hb Hf. unfold mbind, alloc, emit_scalar, put, ret, fail in H. cbn [counter store lits] in H.
   destruct t as [m b0]. destruct m; cbn [fst] in H; try discriminate H;
@@ -104,7 +108,7 @@ Qed.
 
 Lemma emit1_ok t n x s w s1 b :
   (mdo id <- alloc; mdo c <- need_id x; emit_scalar t id (n c)) s = Ok (w, s1) ->
-  P b t -> fresh_store s -> step_ok s s1 w b.
+  P b t None -> fresh_store s -> step_ok s s1 w b.
 Proof.
   intros H Hb Hf. destruct (wid x) as [i|] eqn:Ex.
   - apply (emit_ok t (fun _ => n i) s w s1 b); auto.
@@ -113,7 +117,7 @@ Proof.
 Qed.
 Lemma emit2_ok t n x y s w s1 b :
   (mdo id <- alloc; mdo l <- need_id x; mdo r <- need_id y; emit_scalar t id (n l r)) s = Ok (w, s1) ->
-  P b t -> fresh_store s -> step_ok s s1 w b.
+  P b t None -> fresh_store s -> step_ok s s1 w b.
 Proof.
   intros H Hb Hf. destruct (wid x) as [i|] eqn:Ex; [destruct (wid y) as [j|] eqn:Ey|].
   - apply (emit_ok t (fun _ => n i j) s w s1 b); auto.
@@ -123,7 +127,7 @@ Proof.
 Qed.
 Lemma emit3_ok t n x y z s w s1 b :
   (mdo id <- alloc; mdo a <- need_id x; mdo b' <- need_id y; mdo c <- need_id z; emit_scalar t id (n a b' c)) s = Ok (w, s1) ->
-  P b t -> fresh_store s -> step_ok s s1 w b.
+  P b t None -> fresh_store s -> step_ok s s1 w b.
 Proof.
   intros H Hb Hf.
   destruct (wid x) as [i|] eqn:Ex; [destruct (wid y) as [j|] eqn:Ey; [destruct (wid z) as [k|] eqn:Ez|]|].
